@@ -12,7 +12,7 @@ import ast
 from sa.model import AnalysisError, FuncInfo
 from sa.ctx import Ctx, short, stmt_key
 from sa.lockset import LockSet
-from sa.report import Report
+from sa.report import Report, section
 
 from sa.statemodel import StateModel, TRACKED_CONTAINERS, TRACKED_ATTRS, MUTATORS, _has_inst
 
@@ -227,11 +227,11 @@ class C15:
 def run(ctx: Ctx, rep: Report, tier: str):
     c = C15(ctx, rep)
     c.r1(tier)
-    c.r2()
-    c.r3()
+    section(rep, c.r2)
+    section(rep, c.r3)
     if tier == "thorough":
         c.thorough_notes()
     rep.assume("threads: Runnable.start creates one thread per manager running Runnable.run; application threads enter only through public CloudSync/SmartCloudSync methods")
     from rules.common import start_rechecks_after_join
     rep.rule("C15.R4", "threads per manager: Runnable.start creates the loop thread only past an is_alive() test that follows every join of the old thread", 1)
-    start_rechecks_after_join(ctx, rep, "C15.R4")
+    section(rep, lambda: start_rechecks_after_join(ctx, rep, "C15.R4"))
